@@ -98,6 +98,14 @@ func e1Config(g *core.Stream, variant int) string {
 	fmt.Fprintf(&b, "[TrustedBridges]\n\"bridgesecret\" = \"bridge1\"\n")
 	if g.Chance(1, 2) {
 		fmt.Fprintf(&b, "[WhitelistedOrigins]\n\"https://web.example\" = true\n")
+		if g.Chance(1, 2) {
+			// several origins, some of them differing only in case or a trailing slash, allowed and refused
+			for _, o := range []string{"https://Web.example", "https://web.example/", "https://chat.example", "https://CHAT.example/", "http://web.example"} {
+				if g.Chance(1, 2) {
+					fmt.Fprintf(&b, "%q = %v\n", o, g.Chance(1, 2))
+				}
+			}
+		}
 	}
 	return b.String()
 }
